@@ -88,6 +88,10 @@ def gen_ff(rnd):
         for i, s in enumerate(sections):
             if rnd.random() < 0.25 and not any(s2['type'] == s['type'] for s2 in sections[i + 1:]):
                 s['meta_line'] = {'group': 'g%d' % i}
+                # keys that single lines of the section set themselves as well: the line's own value must win
+                for k, v in (('version', 7), ('comment', 'from #meta'), ('ifdef', 'META'), ('edge', False)):
+                    if rnd.random() < 0.3:
+                        s['meta_line'][k] = v
                 s['meta_pos'] = rnd.randint(0, len(s['lines']))
         edges = []
         if nat >= 2 and rnd.random() < 0.4:
@@ -131,6 +135,8 @@ def gen_ff(rnd):
         for i, s in enumerate(link['sections']):
             if not s['type'].startswith('!') and rnd.random() < 0.2 and not any(s2['type'].lstrip('!') == s['type'] for s2 in link['sections'][i + 1:]):
                 s['meta_line'] = {'group': 'link%d' % li}
+                if rnd.random() < 0.5:
+                    s['meta_line']['version'] = 7
                 s['meta_pos'] = rnd.randint(0, len(s['lines']))
         if rnd.random() < 0.3:
             link['features'] = rnd.sample(['scfix', 'collagen', 'idr'], rnd.randint(1, 2))
